@@ -5,7 +5,9 @@ From Coq Require Import List ZArith NArith Bool String.
 From Coq.Strings Require Import Byte.
 From Coq.Floats Require Import SpecFloat.
 Import ListNotations.
-From BWTable Require Import Cells Fmt StrOrder FmtProofs Sort Limit Reduce Expr ExprSpec Exec ExprProofs BuildProofs.
+From BWGrammar Require Import Grammar GrammarProofs.
+From BWGrammar.Gen Require Import GrammarGen.
+From BWTable Require Import Cells Fmt StrOrder FmtProofs Sort Limit Reduce Expr ExprSpec Exec ExprProofs BuildProofs GrammarTie.
 Open Scope Z_scope.
 
 (* ---- the hand-written builder and the grammar ------------------------------------------------------------------- *)
@@ -26,6 +28,27 @@ Theorem C13_builder_agrees_with_grammar_as_found : forall h e, wf_hc h = true ->
   new_evaluator_with false (yield h) = Ok e -> denote h = Some e.
 Proof. exact (builder_agrees_with_grammar false). Qed.
 Print Assumptions C13_builder_agrees_with_grammar_as_found.
+
+(* The derivation trees of the spec ARE derivations of the grammar table regenerated from grammar.SemanticBQL() on
+   every run (token kinds mapped to lexer token types by [code]); and the three generated HAVING rules are literally
+   the alternatives the tree constructors encode. *)
+Theorem C13_trees_are_grammar_derivations : forall h, wf_hc h = true ->
+  der sbql sy_HAVING_CLAUSE (codes (yield h)).
+Proof. exact hc_is_derivation. Qed.
+Print Assumptions C13_trees_are_grammar_derivations.
+
+Theorem C13_grammar_rules :
+  rules sbql sy_HAVING_CLAUSE =
+    [[T tk_BINDING; NT sy_HAVING_CLAUSE_BINARY_COMPOSITE]; [T tk_NODE; NT sy_HAVING_CLAUSE_BINARY_COMPOSITE];
+     [T tk_LITERAL; NT sy_HAVING_CLAUSE_BINARY_COMPOSITE]; [T tk_TIME; NT sy_HAVING_CLAUSE_BINARY_COMPOSITE];
+     [T tk_PREDICATE; NT sy_HAVING_CLAUSE_BINARY_COMPOSITE]; [T tk_NOT; NT sy_HAVING_CLAUSE];
+     [T tk_LEFT_PARENT; NT sy_HAVING_CLAUSE; T tk_RIGHT_PARENT; NT sy_HAVING_CLAUSE_BINARY_COMPOSITE]] /\
+  rules sbql sy_HAVING_CLAUSE_BINARY_COMPOSITE =
+    [[T tk_AND; NT sy_HAVING_CLAUSE]; [T tk_OR; NT sy_HAVING_CLAUSE]; [T tk_EQ; NT sy_HAVING_CLAUSE];
+     [T tk_LT; NT sy_HAVING_CLAUSE]; [T tk_GT; NT sy_HAVING_CLAUSE]; []] /\
+  rules sbql sy_HAVING = [[T tk_HAVING; NT sy_HAVING_CLAUSE]; []].
+Proof. exact having_rules_generated. Qed.
+Print Assumptions C13_grammar_rules.
 
 (* the model's recursion fuel is always enough *)
 Theorem C13_fuel_enough : forall ce, new_evaluator ce <> Err EFuel.
